@@ -24,11 +24,11 @@ for sid in sorted(os.listdir(f"{V}/seeded")):
         ap = sh(f"git -C {R} apply --3way {d}/patch.diff")
         if ap.returncode != 0:
             alt = f"{d}/patch_rebased.diff"
-            sh(f"git -C {R} checkout -- . ; git -C {R} reset -q")
+            sh(f"git -C {R} reset -q --hard HEAD")
             if os.path.exists(alt) and sh(f"git -C {R} apply {alt}").returncode == 0:
                 pass
             else:
-                print(sid, "PATCH DOES NOT APPLY"); rows.append((sid, "noapply")); sh(f"git -C {R} checkout -- ."); continue
+                print(sid, "PATCH DOES NOT APPLY"); rows.append((sid, "noapply")); sh(f"git -C {R} reset -q --hard HEAD"); continue
     try:
         for p in props:
             t0 = time.time()
@@ -44,6 +44,6 @@ for sid in sorted(os.listdir(f"{V}/seeded")):
             meta.setdefault("detected_by", {})[f"{p}/{tier}"] = verdict
             rows.append((sid, p, verdict))
     finally:
-        sh(f"git -C {R} checkout -- . ; git -C {R} reset -q ; git -C {R} clean -fdq -e '*.pyc'")
+        sh(f"git -C {R} reset -q --hard HEAD ; git -C {R} clean -fdq")
     json.dump(meta, open(f"{d}/meta.json", "w"), indent=1)
 assert sh(f"git -C {R} status --porcelain").stdout.strip() == "", "repo not restored!"
